@@ -59,7 +59,12 @@ func Apply(d *db.DB, c db.Caller, o Op) Result {
 	var v api.SecretVersion
 	switch o.Kind {
 	case "put":
-		v, err = d.Put(c, o.Name, []byte(o.Value))
+		// the caller's buffer is the caller's again once Put returns
+		buf := []byte(o.Value)
+		v, err = d.Put(c, o.Name, buf)
+		for i := range buf {
+			buf[i] ^= 0xff
+		}
 	case "activate":
 		err = d.Activate(c, o.Name, api.SecretVersion(o.Ver))
 	case "delver":
